@@ -367,3 +367,69 @@ def mc_receiver(ctx, variant, maxpush, expect=None):
         if not j["monitor_not_vacuous"]:
             raise ToolError("self-test failed: broken mechanism variant %s did not make the monitor report %s (reported %s)" % (variant, expect, j["reported"]))
     return j
+
+
+# --------------------------------------------------------------------------------------------
+# end-to-end composition System.tla: Sender.tla -> wire -> channel -> Receiver.tla -> monitors
+
+SYSTEM_VARIANTS = {
+    "C01": [("once-ignored", "clean-channel-object-not-delivered-exactly")],
+    # (a close-object flag at every block end, a rule of the SENDER mechanism, is first seen by a lossy channel)
+    "C02": [("rs-needs-all-source-symbols", "recoverable-object-not-delivered"), ("b-every-block", "recoverable-object-not-delivered")],
+    "C16": [("no-flush-at-attach", "late-joiner-did-not-get-a-carouselled-object")],
+}
+
+
+def _sys_hash():
+    import hashlib
+    h = hashlib.md5()
+    for fn in ("System.tla", "Sender.tla", "Receiver.tla", "ReceiverProps.tla", "Partition.tla", "PartitionCore.tla", "VCommon.tla"):
+        h.update(open(os.path.join(SPEC, fn), "rb").read())
+    return h.hexdigest()[:12]
+
+
+def mc_system(ctx, variant, expect=None):
+    """Runs System.tla (both mechanisms composed end to end, monitors as invariant)."""
+    import re
+    cdir = os.path.join(VERIF, "work", "cache")
+    os.makedirs(cdir, exist_ok=True)
+    cpath = os.path.join(cdir, "mc-system-%s-%s.json" % (variant, _sys_hash()))
+    if os.path.exists(cpath):
+        j = json.load(open(cpath))
+        j["cached"] = True
+    else:
+        cfg = ctx.path("sys-%s.cfg" % variant)
+        open(cfg, "w").write('SPECIFICATION Spec\nCONSTANTS ScenSet = {1, 2, 3, 4, 5} Variant = "%s"\nINVARIANT ShowBad NoViolation%s\nCHECK_DEADLOCK FALSE\n'
+                             % (variant, " Delivered" if variant == "ok" else ""))
+        r = tlc(ctx, "System", cfg=cfg, workers=1 if variant == "ok" else 4, mode="mc", timeout=1800)
+        bads = set()
+        for b_ in r["tagged"].get("BAD", []):
+            if isinstance(b_, dict):
+                bads.update(b_.get("conjuncts", []))
+        e2e = {}
+        for m_ in re.finditer(r'<<"E2E", (\d+), "([a-z]+)", <<([0-9, ]*)>>>>', r["stdout"]):
+            key = "scenario %s / %s" % (m_.group(1), m_.group(2))
+            d = e2e.setdefault(key, {"channels": 0, "objects_delivered": 0, "objects": 0})
+            vals = [int(x) for x in m_.group(3).split(",") if x.strip()]
+            d["channels"] += 1
+            d["objects"] += len(vals)
+            d["objects_delivered"] += sum(1 for v in vals if v >= 1)
+        j = {"name": "System[variant=%s, 5 scenarios x clean / every single loss / swap / duplicate / late join]" % variant, "states": r["distinct"],
+             "generated": r["generated"], "wall_s": r["wall_s"], "completed_without_violation": r["ok"], "reported": sorted(bads)}
+        if e2e:
+            j["end_to_end_deliveries"] = e2e
+        if not r["ok"] and not bads:
+            raise ToolError("System[%s] failed without a monitor report:\n%s" % (variant, "\n".join(
+                l for l in r["stdout"].splitlines() if "rror" in l or "Attempted" in l or "exception" in l)[:800]))
+        if (variant == "ok" and r["ok"]) or (variant != "ok" and not r["ok"]):
+            json.dump(j, open(cpath, "w"))
+    ctx.mc.append(j)
+    if variant == "ok":
+        if not j["completed_without_violation"]:
+            ctx.notes["system_design_counterexample"] = j["reported"]
+    else:
+        j["expected"] = expect
+        j["monitor_not_vacuous"] = (not j["completed_without_violation"]) and (expect in j["reported"])
+        if not j["monitor_not_vacuous"]:
+            raise ToolError("self-test failed: broken variant %s of System.tla did not make the monitor report %s (reported %s)" % (variant, expect, j["reported"]))
+    return j
